@@ -1024,6 +1024,7 @@ func c07Run(c *Ctx) {
 	c.Info["credentials"] = kinds
 	styles := c07StylesFor(c.Quick())
 	c.Info["client_header_styles"] = styles
+	c07Concurrent(c, e)
 	for ci, cfg := range cfgs {
 		if !c.Mine(ci) {
 			continue
@@ -1131,6 +1132,12 @@ func init() {
 		shards: func(tier string) int { return 16 },
 		run:    c07Run,
 		replay: func(c *Ctx, raw json.RawMessage) string {
+			var cr0 c07ConcReplay
+			if json.Unmarshal(raw, &cr0) == nil && cr0.Kind == "concurrent-requests" {
+				e := c07NewEnv(c)
+				defer e.up.Close()
+				return c07ConcReplayOne(c, e, cr0)
+			}
 			var cs c07Case
 			if err := json.Unmarshal(raw, &cs); err != nil || cs.Config == nil {
 				return "not a C07 case"
